@@ -912,6 +912,26 @@ class Multiplexer(utils.EventEmitter):
                 # Not expected, this is an initiator-side number
                 # TODO: error out
                 logger.warning(f'invalid DLCI: {pn.dlci}')
+            elif (
+                dlc := self.dlcs.get(pn.dlci)
+            ) is not None and dlc.state == DLC.State.CONNECTED:
+                # The DLC is already open: its parameters can no longer be negotiated.
+                # Answer with the current ones and keep the DLC.
+                response = RFCOMM_MCC_PN(
+                    dlci=pn.dlci,
+                    cl=0xE0,
+                    priority=pn.priority,
+                    ack_timer=0,
+                    max_frame_size=dlc.rx_max_frame_size,
+                    max_retransmissions=0,
+                    initial_credits=0,
+                )
+                mcc = RFCOMM_Frame.make_mcc(
+                    mcc_type=MccType.PN, c_r=0, data=bytes(response)
+                )
+                self.send_frame(
+                    RFCOMM_Frame.uih(c_r=dlc.c_r, dlci=0, information=mcc)
+                )
             else:
                 if self.acceptor:
                     channel_number = pn.dlci >> 1
